@@ -50,3 +50,19 @@ From Sbepp Require Import Wire MsgSpec CursorSpec ScriptSpec CheckedProofs.
 Theorem C06_checked_exact : stmt_checked_exact'.
 Proof. exact checked_exact'. Qed.
 Print Assumptions C06_checked_exact.
+
+From Sbepp Require Import WorkSpec WorkProofs.
+
+(* WORK BOUND, for every table and every byte buffer of any length and content
+   (hostile counts included): no loop of the visitor needs more than n = len b
+   rounds (the model's iteration bound is never hit once it exceeds n), and the
+   number of callbacks is at most (W + 1) * (n + 1) where W counts the members
+   of the schema (WorkSpec.cl_members) *)
+Theorem C06_work_bounded_by_n : stmt_checked_work_bound.
+Proof. exact checked_work_bound. Qed.
+Print Assumptions C06_work_bounded_by_n.
+
+(* the outcome does not depend on the model's iteration bound once it exceeds n *)
+Theorem C06_iteration_bound_irrelevant : stmt_checked_fuel_irrelevant.
+Proof. exact checked_fuel_irrelevant. Qed.
+Print Assumptions C06_iteration_bound_irrelevant.
